@@ -76,3 +76,20 @@ prop("C10", "exploration",
      ["'no other key' is tested for the other pool keys, random keys, other derivation indices and the other wallet, not for all keys",
       "unencrypted binary/JSON slatepacks carry no integrity protection and are outside the statement (only armored text is)"],
      required_hist=["recipient-decrypt-ok", "non-recipient-refused", "cleartext-searches", "edit-rejected:armored:transpose", "edit-rejected:binary:bitflip", "api:other-index-refused"])
+
+prop("C09", "exploration",
+     "27 decoder entry points (armor, slatepack deser+decrypt+get_slate, V4 JSON/binary, slatepack JSON/binary, payment proof / InitTxArgs / "
+     "query args / BlockFees JSON, slatepack and onion addresses, owner slatepack functions on a real wallet, slatepack file reader, stored-tx "
+     "file, wallet.seed file, raw JSON-RPC bodies on the foreign and owner handlers incl. validly encrypted hostile plaintext and hostile "
+     "parameters) called under catch_unwind with a counting allocator (cap 64 MB + 64 x input), CPU meter, journal and watchdog. Inputs: "
+     "hostile strings and random bytes into every entry; valid encodings from the structural generator and, per valid encoding, every "
+     "single-position byte mutation (set 00/ff, +1, bit flip, delete) and truncation (all positions, dealt across shards, for the first "
+     "encodings; sampled after), every single-field JSON mutation (15 hostile values + delete + x300 array) ; slatepacks validly age-encrypted "
+     "to the wallet whose plaintext is malformed; a passphrase-type age file in a mode-1 slatepack. distinct = (entry point, input class, "
+     "accepted/rejected, length bucket); non-trivial = all",
+     [{"name": "c09", "cmd": "c09", "shards": {"quick": 12, "thorough": 16}, "crash_is_violation": True, "timeout": {"quick": 900, "thorough": 3000}}],
+     {"quick": 300000, "thorough": 3000000},
+     ["armored inputs are kept below ~20 kB (base58 decoding is quadratic; bounded by the size limit, so not a violation, but too slow to sweep)",
+      "child-index (derivation counter) bumps are not counted as wallet state for the 'rejected input leaves state untouched' clause",
+      "the verdict build is the release profile: arithmetic that only traps with debug assertions is not judged"],
+     required_hist=["rejected:armor_decode", "accepted:deser_slatepack+decrypt+get_slate", "rejected:foreign-rpc:body", "rejected:owner-rpc:plaintext-body", "rejected:wallet.seed(open_wallet)", "rejected:get_stored_tx(file)"])
